@@ -371,18 +371,16 @@ class Rig:
         # on_toxic call until the driver resumes it (exactly one thread runs at any time)
         self.cv = threading.Condition()
         self.passes = {}            # label -> _Pass
-        self.pass_of_thread = {}    # thread ident -> _Pass
+        self.tls = threading.local()    # .ps = the _Pass this thread runs; .op = the call of the history it is in
         self.free_run = False       # set when the rig is torn down: nobody parks any more
-        # which call of the history a digester call happens in: thread ident -> operation (multi-thread runs)
-        self.cur = {}
-        self.call_ops = []          # parallel to self.calls: "digest" | "ingest" | ... | None
+        self.call_ops = []          # (id, raised, kind of the call of the history the digester ran in | None)   multi-thread runs
 
         def dg(waste):
             self.maybe_park()
             i = self.event_of_call(waste)
             out = self.outs.get(i)
             self.calls.append((i, "dg", out is None))
-            self.call_ops.append(self.cur.get(threading.get_ident()))
+            self.call_ops.append((i, out is None, getattr(self.tls, "op", None)))
             if out is None:
                 raise RuntimeError(f"boom {i}")
             if sys._getframe(1).f_code.co_name == "digest":
@@ -395,7 +393,7 @@ class Rig:
             out = self.outs.get(i)
             self.toxlog.append(i)
             self.calls.append((i, "cb", out is None))
-            self.call_ops.append(self.cur.get(threading.get_ident()))
+            self.call_ops.append((i, out is None, getattr(self.tls, "op", None)))
             if out is None:
                 raise RuntimeError(f"boom {i}")
 
@@ -415,7 +413,7 @@ class Rig:
 
     # -- overlapping passes ------------------------------------------------
     def maybe_park(self):
-        ps = self.pass_of_thread.get(threading.get_ident())
+        ps = getattr(self.tls, "ps", None)
         if ps is None or self.free_run:
             return
         with self.cv:
@@ -443,8 +441,8 @@ class Rig:
         lys = self.lys
 
         def body():
-            self.pass_of_thread[threading.get_ident()] = ps
-            self.cur[threading.get_ident()] = "digest"
+            self.tls.ps = ps
+            self.tls.op = "digest"
             try:
                 ps.ret = lys.digest(k) if k is not None else lys.digest()
             except BaseException as e:  # noqa
@@ -601,8 +599,13 @@ class C13(Check):
             "created_at; the very same Waste object ingested again; ingest_sensitive / ingest_error with the same payload at the "
             "same virtual time) followed by partial digests digest(1)/digest(2)/digest(3) and auto-digests of half the queue - "
             "items are identified by ingest event (object identity + FIFO order), never by value. "
+            "Every 4th history has OVERLAPPING digest() calls: up to 3 further threads call digest(k) and are parked inside each of "
+            "their digester / on_toxic calls (pbegin p k, pstep p), and between two digester calls of one pass the other threads and "
+            "the main thread run ingests (also reaching the threshold / capacity), complete digest(k) calls, autophagy, clock "
+            "advances and steps of the other passes; digesters raise for 40% of the items; every call returns before the history ends. "
             "Exhaustive: every history of depth <=3 (quick) / <=5 (thorough; <=4 on the third) over a 7-call alphabet on 1 (quick) "
-            "/ 3 (thorough) small configurations. Validation only: 2 real threads x 1..3 calls on one Lysosome, random pre-fill and start "
+            "/ 3 (thorough) small configurations, plus every order (depth <=4 quick / <=6 thorough, at digester-call granularity) of two "
+            "overlapping digest() calls, complete digest() calls and ingests on 2 configurations with raising digesters. Validation only: 2 real threads x 1..3 calls on one Lysosome, random pre-fill (half of the runs: items whose digesters raise) and start "
             "offsets (300 quick / 4000 thorough runs). non-trivial = at least one item left the queue; distinct by case content")
     LEVEL_TEXT = ("Coq theorems over all configurations and all histories (no bound on length or sizes) about a hand-written "
                   "executable model of every method of Lysosome with a per-item digester-outcome oracle (returns keys | raises) "
@@ -610,6 +613,10 @@ class C13(Check):
                   "ingested id is queued or has exactly one of six fates; the statistics counters equal the ghost counts); no "
                   "recycled value comes from a toxic item; on_toxic is reached at most once per item and exactly once for every "
                   "toxic item that was digested or emergency-processed; every model call returns (total functions, no fuel). Lock "
+                  "interleaved semantics (digest passes of any number of threads split at their digester calls, any calls in between; "
+                  "the sequential model is proved to be its special case): conservation with items in flight, every digestion error "
+                  "listed in exactly one DigestResult exactly once, every DigestResult accounts for exactly the items its call took, "
+                  "the toxic and queue-bound theorems again. Lock "
                   "discipline: the lock kind and the lock/call structure of the class are regenerated from the source on every run "
                   "and the decidable checks no_self_deadlock && single_lock are discharged on them by vm_compute; a Coq theorem "
                   "about a one-lock abstract machine (any number of threads, any call sequences compiled from any call graph that "
@@ -617,10 +624,12 @@ class C13(Check):
                   "to the code by evaluating it in Coq on every generated history the implementation ran.")
     LEVEL_NOTE = ("Trusts: Coq kernel+VM; the correspondence harness; the ast translator of the lock structure; CPython's `with "
                   "lock` mutual exclusion; digesters/on_toxic return or raise Exception and do not block or re-enter. Two-thread "
-                  "runs (random real-thread runs and the systematic scheduler exploration) are validation, not proof. Axioms: none (Print Assumptions: closed under the global context).")
+                  "runs (random real-thread runs and the systematic scheduler exploration) are validation, not proof; interleavings finer "
+                  "than digester-call granularity (between two source lines of digest()) are covered by those runs only. Axioms: none (Print Assumptions: closed under the global context).")
     TECHNIQUE = ("Coq invariant proof by induction over histories with ghost fates; ast translator + reflective check of the lock "
                  "call graph + abstract lock-machine deadlock-freedom theorem; vm_compute correspondence against Lysosome on a "
-                 "virtual clock with a watchdog per call; real two-thread stress runs under a watchdog; systematic preemption-bounded "
+                 "virtual clock with a watchdog per call, including histories of overlapping digest() calls driven deterministically by "
+                 "parking real threads inside their digesters; real two-thread stress runs under a watchdog; systematic preemption-bounded "
                  "schedule exploration of two real threads under a deterministic scheduler (deadlock detection on all locks)")
     TRUSTED = ["translator harness/c13.py:lock_structure (Python ast -> lock kind + per-method lock/call structure, fail closed)",
                "modelled not verified: `with self._lock` gives mutual exclusion, an RLock may be re-acquired by its holder and a "
@@ -634,17 +643,21 @@ class C13(Check):
                "the object and compared with the model's configuration on every case (row 0)",
                "Waste.created_at's default factory (real datetime.now bound at import) is put on the virtual clock by rebinding "
                "lysosome.Waste to a dataclass subclass that only changes that default; lysosome.datetime is rebound likewise",
-               "two-thread behaviour beyond lock discipline (real-thread runs) is validated, not proved"]
+               "overlapping calls are modelled and driven at digester-call granularity (a thread is parked inside a digester / "
+               "on_toxic call; what digest() does between two digester calls is one model step); ingest is atomic (it holds the lock)",
+               "two-thread behaviour at source-line granularity (real-thread runs, scheduler exploration) is validated, not proved"]
     ASSUMPTIONS = ["max_queue_size >= 2 for the queue bound (max_queue_size = 1 overflows: Examples.v bound_fails_at_1)",
                    "waste_type is a WasteType member; a digester raising BaseException (KeyboardInterrupt) is out of scope: it "
                    "would propagate out of digest() after the items were taken off the queue",
-                   "'at all times' is read as: at every point where no call is in progress",
+                   "'at all times' is read as: at every point where no call is in progress; while digest() calls are in progress the "
+                   "items they have taken and not yet handed to a digester count as in flight, and 'reported' is judged when no call is in progress",
                    "'reach the toxic callback exactly once': at most once ever, exactly once when digested or emergency-processed "
                    "with on_toxic set; items expired by autophagy never reach it (DESIGN.md section 6, Reading)"]
 
     def __init__(self, tier, seed):
         super().__init__(tier, seed)
         self.hangs_seen = 0
+        self.waits_seen = 0         # calls that only returned after another thread's digester had returned
         self.kind = None
 
     # -- translator --------------------------------------------------------
@@ -937,7 +950,8 @@ class C13(Check):
     # -- implementation ----------------------------------------------------
     def _timeout(self):
         # a self-deadlock is deterministic: after repeated confirmed hangs the wait is shortened
-        return 2.0 if self.hangs_seen < 3 else (0.4 if self.hangs_seen < 10 else 0.15)
+        n = max(self.hangs_seen, self.waits_seen)
+        return 2.0 if n < 3 else (0.4 if n < 10 else 0.15)
 
     def run_impl(self, case):
         cfg, ops = case["cfg"], case["ops"]
@@ -988,6 +1002,7 @@ class C13(Check):
                                 opt.join(self._timeout())
                                 stuck = stuck or opt.is_alive()
                         self.hangs_seen += 1 if stuck else 0
+                        self.waits_seen += 0 if stuck else 1
                         obs.append([-999] if stuck else [-997])
                         steps.append({"op": o, "hang": stuck, "waited": not stuck, "before": before,
                                       "parked": sorted(open_labels)})
@@ -1209,7 +1224,8 @@ class C13(Check):
             s = st["stats"]
             if s["total_ingested"] != ningested:
                 return Violation("C13/conservation", f"after {where} total_ingested {s['total_ingested']} != {ningested} ingest calls")
-            if s["total_digested"] != ndig:
+            # "digested (counted)": judged when no digest() call is in progress (a call may publish its counts when it returns)
+            if not inflight and s["total_digested"] != ndig:
                 return Violation("C13/conservation", f"after {where} total_digested {s['total_digested']} != {ndig} items whose digester returned")
             r = st["ret"]
             if isinstance(r, dict):             # a DigestResult was returned (digest, or the last step of an overlapping call)
@@ -1248,9 +1264,9 @@ class C13(Check):
                                                          f"disposed items but {n_ok_in_digest} digesters returned inside digest() calls")
             if o[0] == "auto" and st["ret"] != len(gone):
                 return Violation("C13/conservation", f"{where} returned {st['ret']} but {len(gone)} items expired")
-            if s["total_ingested"] != len(after) + n_inflight + s["total_digested"] + len(must_report) + n_silent + n_exp:
+            if s["total_ingested"] != len(after) + n_inflight + ndig + len(must_report) + n_silent + n_exp:
                 return Violation("C13/conservation", f"after {where}: ingested {s['total_ingested']} != queued {len(after)} + taken by a digest() call in progress "
-                                                     f"{n_inflight} + digested {s['total_digested']} "
+                                                     f"{n_inflight} + digested {ndig} "
                                                      f"+ digestion errors {len(must_report)} + dropped inside ingest {n_silent} + expired {n_exp}")
             # toxic items never recycled
             for v in st["bin_refs"]:
@@ -1374,7 +1390,16 @@ class C13(Check):
                 ops.append(o)
                 i += 1            # ids are reserved per slot whether or not the op ingests
             ths.append(ops)
-        return {"cfg": cfg, "pre": pre, "threads": ths, "delay_us": [rng.choice([0, 0, 20, 50, 100, 200]) for _ in range(2)]}
+        tc = {"cfg": cfg, "pre": pre, "threads": ths, "delay_us": [rng.choice([0, 0, 20, 50, 100, 200]) for _ in range(2)]}
+        if rng.random() < 0.5:
+            # the items already queued when the threads start have digesters that raise (40%) / recycle under colliding keys
+            tc["pre_ops"] = [["ingest", rng.choice([0, 1, 2, 3]), 0, None if rng.random() < 0.4 else self._rand_out(rng, j)]
+                             for j in range(pre)]
+        return tc
+
+    @staticmethod
+    def _pre_ops(tc):
+        return tc.get("pre_ops") or [["ingest", 0, 0, [0]] for _ in range(tc["pre"])]
 
     def _final_check(self, rig, cfg, rets, n_ing, desc):
         """the monitor's invariants on the quiescent final state of a multi-thread run -> None | Violation"""
@@ -1402,6 +1427,21 @@ class C13(Check):
         if st["total_ingested"] != n_ing or st["total_digested"] != n_ok or n_rep > n_raise or n_disp > n_ok:
             return Violation("C13/conservation", f"{desc}: statistics {st} but {n_ing} ingests, {n_ok} digesters returned, "
                                                  f"{n_raise} raised ({n_rep} reported), disposed {n_disp}")
+        # "reported as a digestion error", exactly: all calls have returned, so an item whose digester raised inside a
+        # digest() call of a thread is listed in the errors of exactly one returned DigestResult, nothing else is listed,
+        # and the returned results count exactly the items whose digester returned inside such a call
+        must = sorted(cid for (cid, raised, op) in rig.call_ops if raised and op == "digest")
+        ok_dig = sum(1 for (_c, raised, op) in rig.call_ops if not raised and op == "digest")
+        results = [(o, r.disposed, err_ids(r.errors)) for rr in rets for (o, r) in rr if o[0] == "digest"]
+        listed = sorted(x for (_o, _d, es) in results for x in es)
+        if listed != must or n_disp != ok_dig:
+            lost = [x for x in must if x not in listed]
+            twice = sorted({x for x in listed if listed.count(x) > 1 or x not in must})
+            return Violation("C13/conservation", f"{desc}: the digesters of items {must} raised inside digest() calls and {ok_dig} returned there, but the "
+                                                 f"returned DigestResults (call, disposed, error ids) are {results}: "
+                                                 + (f"items {lost} are neither queued, digested, reported as a digestion error, dropped nor expired; " if lost else "")
+                                                 + (f"items {twice} are reported more than once / without having failed; " if twice else "")
+                                                 + (f"disposed counts add up to {n_disp}" if n_disp != ok_dig else ""))
         if n_ing != len(q) + n_ok + n_raise + n_exp:
             return Violation("C13/conservation", f"{desc}: {n_ing} ingested != {len(q)} queued + {n_ok} digested + {n_raise} errors + {n_exp} expired")
         for v in int_refs(lys.get_recycled().values()):
@@ -1429,8 +1469,8 @@ class C13(Check):
         lys = rig.lys
         try:
             nid = 0
-            for _ in range(tc["pre"]):
-                rig.do(["ingest", 0, 0, [0]], nid)()
+            for po in self._pre_ops(tc):
+                rig.do(po, nid)()
                 nid += 1
             fns, rets = [], [[], []]
             n_ing = tc["pre"]
@@ -1451,6 +1491,7 @@ class C13(Check):
                     while time.perf_counter() < t_end:
                         pass
                 for (o, fn) in fns[k]:
+                    rig.tls.op = o[0]
                     rets[k].append((o, fn()))
 
             def both():
@@ -1467,7 +1508,7 @@ class C13(Check):
                                              f"auto_digest_threshold={cfg['thr']}: not all calls returned within the watchdog time")
             except Exception as e:
                 return Violation("C13/raises", f"two threads {tc['threads']}: a call raised {type(e).__name__}: {e}")
-            return self._final_check(rig, cfg, rets, n_ing, f"two threads {tc['threads']}")
+            return self._final_check(rig, cfg, rets, n_ing, f"two threads {tc['threads']} after the ingests {self._pre_ops(tc)}")
         finally:
             rig.close()
 
@@ -1492,6 +1533,15 @@ class C13(Check):
         # two digest passes side by side: colliding keys, the unlocked counter / bin updates
         {"cfg": {"max": 8, "thr": 9, "ret": 1, "cb": True}, "pre": 4,
          "threads": [[["digest", 2]], [["digest", None], ["ingest", 2, 0, [0]]]]},
+        # two digest passes side by side over items whose digesters RAISE: each failure is reported by exactly one result
+        {"cfg": {"max": 8, "thr": 9, "ret": 1, "cb": True}, "pre": 3,
+         "pre_ops": [["ingest", 2, 0, None], ["ingest", 2, 0, None], ["ingest", 0, 0, None]],
+         "threads": [[["digest", 2]], [["digest", None]]], "quick_runs": 70},
+        # a digest pass over raising digesters against an ingest that reaches the auto-digest threshold, then a digest
+        {"cfg": {"max": 8, "thr": 2, "ret": 1, "cb": True}, "pre": 1,
+         "pre_ops": [["ingest", 2, 0, None]],
+         "threads": [[["digest", None], ["digest", None]], [["ingest", 0, 0, None], ["ingest", 3, 0, None], ["digest", None]]],
+         "quick_runs": 70},
     ]
 
     def run_sched(self, tc, prefix):
@@ -1515,8 +1565,8 @@ class C13(Check):
         s = sched.Scheduler((SRC,), choose)
         try:
             nid = 0
-            for _ in range(tc["pre"]):
-                rig.do(["ingest", 0, 0, [0]], nid)()
+            for po in self._pre_ops(tc):
+                rig.do(po, nid)()
                 nid += 1
             # EVERY lock the object owns becomes a scheduler-aware lock of the same reentrancy
             info = {"locks": [], "wants": {}, "snap": None}
@@ -1535,6 +1585,7 @@ class C13(Check):
                 def run(tid=tid, row=row):
                     for (o, fn) in row:
                         try:
+                            rig.tls.op = o[0]
                             rets[tid].append((o, fn()))
                         except sched.Deadlock:
                             raise
@@ -1548,7 +1599,7 @@ class C13(Check):
                 return Violation("C13/hang", f"scheduled threads {tc['threads']}: the run did not finish (a thread blocks on "
                                              f"something the scheduler does not control); schedule prefix {prefix}"), s
             chosen = [c for c, _ in s.trace if c is not None]
-            desc = (f"threads {tc['threads']} after {tc['pre']} ingests on max_queue_size={cfg['max']} "
+            desc = (f"threads {tc['threads']} after the ingests {self._pre_ops(tc)} on max_queue_size={cfg['max']} "
                     f"auto_digest_threshold={cfg['thr']}, schedule {chosen}")
             if s.deadlock:
                 snap = info.get("snap") or {}
@@ -1642,7 +1693,7 @@ class C13(Check):
             if time.time() > t_end:
                 skipped += 1
                 continue
-            runs, nseen, first, done = self.explore_sched(tc, bound, per)
+            runs, nseen, first, done = self.explore_sched(tc, bound, min(per, tc.get("quick_runs", per)) if quick else per)
             total += runs
             distinct += nseen
             exhausted += 1 if done else 0
